@@ -70,6 +70,16 @@ def oracle(case, ans):
         return f"the undisturbed run did not end normally: {bo}"
     if drv != "ecm" and bo != "done":
         return f"the undisturbed run did not complete: {bo}"
+    # absolute requirements on the undisturbed run (not relative to anything): every curve of an ECM run that reports nothing polled
+    # once; a QS run polled after each of its large block pairs (the trace ends with a poll); classgroup polled at least after the loop
+    if drv == "ecm" and bo == "exhausted" and len(_polls(bev)) != curves:
+        return f"{len(_polls(bev))} polls in an ECM run of {curves} curves that reported nothing"
+    if drv == "ecm" and bo == "done" and not bev:
+        return "an ECM run that reported a factor never polled"
+    if drv == "qs" and (not bev or bev[-1] != "p0" or any(a[0] == b[0] == "a" for a, b in zip(bev, bev[1:]))):
+        return f"the undisturbed QS run does not poll after every large block pair: {','.join(bev)[:120]}"
+    if drv == "cg" and not bev:
+        return "the undisturbed class group run never polled"
     fired = any(e == "p1" for e in rev)
     if fired and ro not in ("abort", "abort+found"):
         return f"a poll answered true but the driver came back with `{ro}`"
@@ -175,13 +185,13 @@ def cases(rng, tier, flips, thread_sets, tag):
         for t in thread_sets["qs"]:
             for fl in flips:
                 yield Case(f"sched_trace qs {n} {t} {fl}", k=False, tag=tag, timeout=120)
-    # ECM: a 22..26-bit factor (some curve of the 24 reports it) and a balanced 2 x 60 bits input (no curve reports: every curve is polled)
-    ins = [gen.rand_prime(rng, rng.choice([22, 24, 26])) * gen.rand_prime(rng, 70) for _ in range(2 if quick else 5)] + [_semiprime(rng, 120)]
+    # ECM: a 28..36-bit factor (usually one of the 24 curves reports it, not the first) and a balanced 2 x 60 bits input (no curve reports: every curve is polled)
+    ins = [gen.rand_prime(rng, rng.choice([28, 32, 36])) * gen.rand_prime(rng, 70) for _ in range(3 if quick else 8)] + [_semiprime(rng, 120)]
     for n in ins:
         for t in thread_sets["ecm"]:
             for fl in flips:
                 yield Case(f"sched_trace ecm {n} {t} {fl} {ECM_PARAMS}", k=False, tag=tag, timeout=120)
-    for bits in ((40, 64) if quick else (40, 64, 80, 96)):
+    for bits in ((48, 80, 100) if quick else (40, 64, 80, 96, 104, 112)):
         d = _disc(rng, bits)
         for t in thread_sets["cg"]:
             for fl in flips:
